@@ -590,6 +590,12 @@ func runCase(spec Spec, params []int64, sv *Solver, res *ShardResult) CaseResult
 			ex.stats.UnwindExceeded++
 			cr.Inconclusive = appendCapped(cr.Inconclusive, "unwind bound exceeded: "+end.msg)
 		case "engine-error":
+			// a limitation of the engine on this path: reported like an unsupported construct
+			first := end.msg
+			if i := strings.Index(first, "\n"); i > 0 {
+				first = first[:i]
+			}
+			ex.stats.Unsupported["engine limitation: "+first]++
 			engineErrors = appendCapped(engineErrors, end.msg)
 		case "escaped-panic":
 			cr.Inconclusive = appendCapped(cr.Inconclusive, "panic escaped the harness: "+end.msg)
